@@ -62,7 +62,10 @@ theorem append_spec (l : Link T) (x : T) (h : WF l) (hb : (toList l).length + 1 
   have hl := len_spec l h
   refine ⟨Link.some x l ((toList l).length + 1), ?_, ?_, ?_⟩
   · have : ¬ (toList l).length + 1 > usizeMax := by omega
-    simp [List_append, Rt.addUsize, hl, this, Res.bind]
+    first
+    | (simp [List_append, Rt.addUsize, hl, this, Res.bind]; done)
+    | (cases l <;> simp_all [List_append, List_len, Rt.addUsize, Res.bind, toList, WF] <;>
+        (try rw [if_neg (by omega)]) <;> first | rfl | omega | (simp_all; done))
   · simp [toList]
   · simp [WF, h]
 
@@ -71,7 +74,10 @@ theorem append_overflow (l : Link T) (x : T) (h : WF l) (hb : usizeMax < (toList
     List_append l x = .panic := by
   have hl := len_spec l h
   have : (toList l).length + 1 > usizeMax := hb
-  simp [List_append, Rt.addUsize, hl, this, Res.bind]
+  first
+  | (simp [List_append, Rt.addUsize, hl, this, Res.bind]; done)
+  | (cases l <;> simp_all [List_append, List_len, Rt.addUsize, Res.bind, toList, WF] <;>
+      (try rw [if_pos (by omega)]) <;> first | rfl | omega | (simp_all [usizeMax]; done) | (simp [usizeMax] at *; done))
 
 /-- one step of the iterator: the newest element and an iterator over the rest -/
 theorem next_spec (l : Link T) :
